@@ -344,8 +344,8 @@ class GalliaBaseModel(BaseCommand, ABC):
                 if info.config_section is None:
                     info.config_section = config_section
 
-                # Add config to registry
-                if info.config_section is not None:
+                # Add config to registry (hidden arguments are not part of the config file)
+                if info.config_section is not None and not info.hidden:
                     config_attribute = (
                         f"{info.config_section}.{attribute}"
                         if info.config_section != ""
@@ -418,7 +418,7 @@ class GalliaBaseModel(BaseCommand, ABC):
         result = {}
 
         for name, info in cls.model_fields.items():
-            if isinstance(info, ConfigArgFieldInfo):
+            if isinstance(info, ConfigArgFieldInfo) and not info.hidden:
                 config_attribute = (
                     f"{info.config_section}.{name}" if info.config_section != "" else name
                 )
